@@ -220,5 +220,8 @@ _add("C18", tech="sketch driven with int, string, struct and float keys (+0.0 / 
      level="A concurrent engine judges every displacement of a main-region entry at the moment it happens against the estimates the eviction loop looked up.",
      rule="Concurrent engine: one case = (bounded configuration, per-task programs) x one schedule; non-trivial: at least one displacement decision was judged.",
      assume="the concurrent admission rule relies on two optional observation points (entry of sketch.frequency and cache.evictNode) inserted into the scratch copy; a tree without those methods makes the rule silent (probe counters at zero), never alarmed")
+_add("C17", tech="cache-level sequential engine: whole-API programs against the reference model with a single 16-slot read-buffer stripe, bursts of 17-40 reads and a harness-held executor, so that read events are dropped constantly; every mismatch of such a run is also C17's",
+     level="A cache-level engine checks that results do not depend on dropped reads.",
+     rule="Cache-level engine: one case = (configuration, operation sequence); non-trivial: at least 17 reads of live keys.")
 _add("C19", tech="slow streams: every Read of LoadCacheFrom may move the clock, so load time is an interval")
 _add("C07", tech="maxima beyond 32 bits and weights near 2^32")
